@@ -160,6 +160,16 @@ class RetractionState(CommonMixin):
         else:
             amount = self.extrusionAmount * direction
             eAxis = position.E_AXIS
+            if (not eAxis.absoluteMode):
+                # Relative extruder mode: the printer expects the distance to move the filament
+                returnCommands.append(
+                    "G1 F{f} E{e}".format(
+                        e=formatNumber(-amount / eAxis.unitMultiplier),
+                        f=formatNumber(self.feedRate / eAxis.unitMultiplier)
+                    )
+                )
+                return returnCommands
+
             eAxis.current += amount
 
             returnCommands.append(
